@@ -649,6 +649,70 @@ theorem stepwise_exact (m : Model) (hv : Valid m) (τ : Rat) (hsep : Sep m τ) (
     intro a ha
     exact qOf_congr m hv _ _ ih b hb (by have := hv.hA; omega)
 
+
+/-! ## soundness of the driver's clause (i) checker -/
+
+theorem dot_congrN (n : Nat) (b v w : Vec) (h : vecEqN n v w = true) : dot n b v = dot n b w := by
+  unfold dot
+  apply sumTo_congr
+  intro s hs
+  unfold vecEqN allLt at h
+  rw [List.all_eq_true] at h
+  have := h s (List.mem_range.mpr hs)
+  rw [decide_eq_true_eq] at this
+  rw [this]
+
+/-- a list all of whose vectors are entrywise members of Γ' has its envelope below Γ' 's -/
+theorem env_le_of_memN (n : Nat) (Γ Γ' : List Vec) (b : Vec) (hne : Γ ≠ []) (h : Γ.all (fun α => memN n Γ' α) = true) :
+    env n Γ b ≤ env n Γ' b := by
+  obtain ⟨α, hα, e⟩ := env_attained n Γ b hne
+  rw [e]
+  rw [List.all_eq_true] at h
+  have hm := h α hα
+  unfold memN at hm
+  rw [List.any_eq_true] at hm
+  obtain ⟨w, hw, hEq⟩ := hm
+  rw [← dot_congrN n b w α hEq]
+  exact env_ge n Γ' b w hw
+
+/-- **checkChain_sound**: if the Lean-evaluated checker accepts the chain of returned lists, the last list's envelope is ≤ the
+    expectimax value at EVERY belief (all of the simplex, not the sampled points). -/
+theorem checkChain_sound (m : Model) (hv : Valid m) (τ : Rat) (hsep : Sep m τ) (hγ : 0 ≤ m.γ) :
+    ∀ (rest : List (List Vec)) (prev : List Vec) (t : Nat), prev ≠ [] →
+      (∀ b, NonNeg m.S b → env m.S prev b ≤ expectimax m t b) →
+      checkChain m τ prev rest = true →
+      ∀ b, NonNeg m.S b → env m.S (lastOf prev rest) b ≤ expectimax m (t + rest.length) b := by
+  intro rest
+  induction rest with
+  | nil => intro prev t _ hprev _ b hb; simpa [lastOf] using hprev b hb
+  | cons cur rest ih =>
+    intro prev t hne hprev hc b hb
+    simp only [checkChain, Bool.and_eq_true] at hc
+    obtain ⟨hstep, hrest⟩ := hc
+    simp only [checkBackupStep, Bool.and_eq_true, Bool.not_eq_true', List.isEmpty_eq_false_iff] at hstep
+    obtain ⟨hcne, hall⟩ := hstep
+    have hcur : ∀ b, NonNeg m.S b → env m.S cur b ≤ expectimax m (t+1) b := by
+      intro b hb
+      calc env m.S cur b ≤ env m.S (backupAll m τ prev) b := env_le_of_memN _ _ _ b hcne hall
+        _ = maxTo (m.A - 1) (qOf m (env m.S prev) b) := env_backupAll m hv τ hsep hγ _ hne b hb
+        _ ≤ maxTo (m.A - 1) (qOf m (expectimax m t) b) := by
+            apply maxTo_mono
+            intro a ha
+            exact qOf_mono m hv hγ _ _ hprev b hb (by have := hv.hA; omega)
+        _ = expectimax m (t+1) b := rfl
+    have := ih cur (t+1) hcne hcur hrest b hb
+    simp only [lastOf, List.length_cons]
+    have e : t + (rest.length + 1) = t + 1 + rest.length := by omega
+    rw [e]; exact this
+
+/-- from the zero vector (what `makeValueFunction` returns for timestep 0) -/
+theorem checkChain_sound_from_zero (m : Model) (hv : Valid m) (τ : Rat) (hsep : Sep m τ) (hγ : 0 ≤ m.γ)
+    (rest : List (List Vec)) (hc : checkChain m τ [vzero m.S] rest = true) (b : Vec) (hb : NonNeg m.S b) :
+    env m.S (lastOf [vzero m.S] rest) b ≤ expectimax m rest.length b := by
+  have := checkChain_sound m hv τ hsep hγ rest [vzero m.S] 0 (by simp)
+    (by intro b _; simp [env, lmax, dot_vzero, expectimax]) hc b hb
+  simpa using this
+
 /-! ## Incremental Pruning's interleaving -/
 
 /-- a pruner that keeps the upper envelope over non-negative points (what `Pruner` is required to do; C12's subject) -/
